@@ -39,7 +39,7 @@ impl HasKey<Local> for V3 {
 }
 
 impl LocalKey {
-    fn keys(&self, nonce: &[u8; 32]) -> (ctr::Ctr64BE<aes::Aes256>, hmac::Hmac<sha2::Sha384>) {
+    fn keys(&self, nonce: &[u8; 32]) -> (ctr::Ctr128BE<aes::Aes256>, hmac::Hmac<sha2::Sha384>) {
         use cipher::KeyIvInit;
         use digest::Mac;
 
@@ -48,7 +48,7 @@ impl LocalKey {
         let n2 = generic_array::GenericArray::from(paseto_core::verif::counter_override(n2.into()));
         let ak: GenericArray<u8, U48> = kdf(&self.0, b"paseto-auth-key-for-aead", nonce);
 
-        let cipher = ctr::Ctr64BE::<aes::Aes256>::new(&ek, &n2);
+        let cipher = ctr::Ctr128BE::<aes::Aes256>::new(&ek, &n2);
         let mac = hmac::Hmac::new_from_slice(&ak).expect("key should be valid");
         (cipher, mac)
     }
